@@ -586,6 +586,9 @@ enum CKind {
     F64,
     Vec(u8, Sc),
     Arr(u32, Sc),
+    /// a zero-value constructor (`vec3<f32>()`, `i32()`): declared, never used in an expression
+    /// (naga's constant evaluator rejects casts / unary operators applied to `ZeroValue`)
+    Zero,
 }
 
 #[derive(Clone, Debug)]
@@ -1861,6 +1864,7 @@ impl Gen {
                 let i = self.rng.below(n as usize);
                 conv_to_f32(s, &format!("{}[{}]", c.name, i))
             }
+            CKind::Zero => "0.25".to_string(),
         })
     }
 
@@ -2676,6 +2680,11 @@ impl Gen {
 impl Gen {
     fn const_name(&mut self) -> String {
         let n = self.fresh(0);
+        if self.rng.pct(6) && n.is_ascii() {
+            // a name that only LOOKS generated (`ENTRY_<x>` is the prefix of the entry point constants)
+            self.feat("const_named_like_entry_const");
+            return format!("ENTRY_{}", n.to_uppercase());
+        }
         if self.rng.pct(50) && n.is_ascii() {
             n.to_uppercase()
         } else {
@@ -2865,6 +2874,18 @@ impl Gen {
                     } else {
                         (format!("const {}: u32 = u32({}) + 1u;", name, c.name), CKind::U32, Some(c.small.unwrap() + 1))
                     }
+                }
+            }
+            14 if self.rng.pct(50) => {
+                // zero-value constructors: naga keeps them as `Expression::ZeroValue`, not as a literal
+                self.feat("const_zero_value");
+                match self.rng.below(6) {
+                    0 => (format!("const {} = vec3<f32>();", name), CKind::Zero, None),
+                    1 => (format!("const {} = vec2<u32>();", name), CKind::Zero, None),
+                    2 => (format!("const {} = mat2x2<f32>();", name), CKind::Zero, None),
+                    3 => (format!("const {} = i32();", name), CKind::Zero, None),
+                    4 => (format!("const {} = f32();", name), CKind::Zero, None),
+                    _ => (format!("const {} = bool();", name), CKind::Zero, None),
                 }
             }
             14 => {
